@@ -1981,4 +1981,87 @@ theorem helloComplete_handshake (ch : ClientHello) : helloComplete [⟨0, handsh
   simp [helloComplete, hn]
   omega
 
+/-! ## The stream sniffer with a clock -/
+
+theorem atEofT_time (D : Nat) (buf : Bytes) (nm : Bool) (now : Nat) (rest : List TEv) :
+    now ≤ (atEofT D buf nm now rest).time ∧ (atEofT D buf nm now rest).time ≤ max now D := by
+  unfold atEofT
+  split
+  · simp only []; omega
+  · split <;> simp only [] <;> omega
+
+theorem sniffLoopT_time (D : Nat) (s : List TEv) (buf : Bytes) (nm : Bool) (now : Nat) :
+    now ≤ (sniffLoopT D buf nm now s).time ∧ (sniffLoopT D buf nm now s).time ≤ max now D := by
+  induction s generalizing buf nm now with
+  | nil => rw [sniffLoopT]; exact atEofT_time D buf nm now []
+  | cons te rest ih =>
+    obtain ⟨dt, e⟩ := te
+    simp only [sniffLoopT]
+    split
+    · rename_i hlt
+      cases e with
+      | eof => have := atEofT_time D buf nm (now + dt) (⟨0, .eof⟩ :: rest); simp only []; omega
+      | stall => have := ih buf nm (now + dt); simp only []; omega
+      | rst => simp only []; omega
+      | data b =>
+        simp only []
+        split
+        · simp only []; omega
+        · split
+          · have := ih (buf ++ b) true (now + dt); omega
+          · simp only []; omega
+    · simp only []; omega
+
+theorem atEofT_fields (D : Nat) (buf : Bytes) (nm : Bool) (now : Nat) (rest : List TEv) (rest' : List Ev) :
+    (atEofT D buf nm now rest).result = (atEof buf nm rest').result ∧
+    (atEofT D buf nm now rest).needMoreSeen = (atEof buf nm rest').needMoreSeen ∧
+    (atEofT D buf nm now rest).buf = (atEof buf nm rest').buf ∧
+    (atEofT D buf nm now rest).dataError = (atEof buf nm rest').dataError := by
+  unfold atEofT atEof
+  split
+  · exact ⟨rfl, rfl, rfl, rfl⟩
+  · split <;> exact ⟨rfl, rfl, rfl, rfl⟩
+
+theorem sniffLoopT_refines (D : Nat) (s : List TEv) (buf : Bytes) (nm : Bool) (now : Nat) :
+    (sniffLoopT D buf nm now s).result = (sniffLoop buf nm (untime D now s)).result ∧
+    (sniffLoopT D buf nm now s).needMoreSeen = (sniffLoop buf nm (untime D now s)).needMoreSeen ∧
+    (sniffLoopT D buf nm now s).buf = (sniffLoop buf nm (untime D now s)).buf ∧
+    (sniffLoopT D buf nm now s).dataError = (sniffLoop buf nm (untime D now s)).dataError := by
+  induction s generalizing buf nm now with
+  | nil => rw [sniffLoopT, untime, sniffLoop]; exact atEofT_fields D buf nm now [] []
+  | cons te rest ih =>
+    obtain ⟨dt, e⟩ := te
+    simp only [sniffLoopT, untime]
+    split
+    · cases e with
+      | eof => simp only []; rw [sniffLoop]; exact atEofT_fields _ _ _ _ _ _
+      | stall => simp only []; exact ih buf nm (now + dt)
+      | rst => simp only []; rw [sniffLoop]; exact ⟨rfl, rfl, rfl, rfl⟩
+      | data b =>
+        simp only []
+        rw [sniffLoop]
+        split
+        · exact ⟨rfl, rfl, rfl, rfl⟩
+        · split
+          · exact ih (buf ++ b) true (now + dt)
+          · exact ⟨rfl, rfl, rfl, rfl⟩
+    · rw [sniffLoop]; exact ⟨rfl, rfl, rfl, rfl⟩
+
+theorem clientBytes_untime (D : Nat) (s : List TEv) (now : Nat) :
+    clientBytes (untime D now s) = clientBytes (s.map TEv.ev) ∧
+    clientEnd (untime D now s) = clientEnd (s.map TEv.ev) := by
+  induction s generalizing now with
+  | nil => exact ⟨rfl, rfl⟩
+  | cons te rest ih =>
+    obtain ⟨dt, e⟩ := te
+    simp only [untime]
+    split
+    · cases e with
+      | eof => exact ⟨rfl, rfl⟩
+      | stall => simpa [clientBytes, clientEnd] using ih (now + dt)
+      | rst => exact ⟨rfl, rfl⟩
+      | data b => simp [clientBytes, clientEnd, ih (now + dt)]
+    · simp [clientBytes, clientEnd]
+
+
 end DaeVerif.C06
